@@ -98,6 +98,7 @@ func C03() int {
 	RunCorpus(s, prod, pf, 1000, judge)
 	WholeRuns = -1
 	c03FailingRuns(s, c, items)
+	c03MixedRuns(s, c, items)
 	reportBatchAnomalies(c)
 	c.Set("flag_sets", flagNames(fsets))
 	raceVerdict(s, c)
@@ -233,6 +234,109 @@ func c03FailingRuns(s *sut.SUT, c *ev.Check, items []Item) {
 				return
 			}
 			c.Count("lines_emitted_before_a_failure_aligned", 1)
+		}
+	})
+}
+
+// c03MixedRuns: "every emitted line is exactly one valid JSON object" in a log whose object lines
+// are interleaved with lines that are valid JSON but NOT objects (arrays, numbers, strings, null,
+// booleans — with and without the text "attr"), JSON-looking text and blanks: each emitted line
+// must be an object with the shape of the next object line of the input, in order.
+func c03MixedRuns(s *sut.SUT, c *ev.Check, items []Item) {
+	var good []Item
+	for _, it := range items {
+		if len(it.Raw) < 3000 {
+			good = append(good, it)
+		}
+		if len(good) >= 120 {
+			break
+		}
+	}
+	if len(good) < 40 {
+		c.Inconclusive("too few lines for the mixed runs")
+		return
+	}
+	strays := []string{`[1,2,3]`, `42`, `null`, `"text"`, `true`, `false`, `-0.5e3`, `[]`, `[{"a":1}]`, `"{\"a\":1}"`, `[{"attr":{"command":{"find":"c","filter":{"a":"b"}}}}]`, `"attr"`, ``, `   `, `{not json at all}`, `{"msg":"unterminated}`, `0`, `""`, `[[[]]]`, `1e400`, `{"a":1}}`, `{"a":1} {"b":2}`}
+	fsets := []Flags{{}, {N: true, B: true, I: true}, {W: true, R: sp("[x]")}}
+	parallelDo(len(fsets)*3*2, func(j int) {
+		f := fsets[j%len(fsets)]
+		ch := (j / len(fsets)) % 3
+		lead := j/(len(fsets)*3) == 1 // the file starts with a stray line / with an object line
+		var in bytes.Buffer
+		var objs []Item
+		k := 0
+		for i, it := range good {
+			if lead || i > 0 {
+				for n := 0; n <= i%3; n++ {
+					in.WriteString(strays[k%len(strays)])
+					in.WriteByte('\n')
+					k++
+				}
+			}
+			in.Write(it.Raw)
+			in.WriteByte('\n')
+			objs = append(objs, it)
+		}
+		in.WriteString(strays[k%len(strays)]) // last line: a stray one without final newline
+		dir := s.TempDir("c03m")
+		defer os.RemoveAll(dir)
+		inp := filepath.Join(dir, "in.log")
+		os.WriteFile(inp, in.Bytes(), 0o644)
+		outp := filepath.Join(dir, "out.log")
+		args := append([]string{"redact"}, f.Args(j, "")...)
+		run := sut.Run{Dir: dir}
+		switch ch {
+		case 0:
+			args = append(args, inp)
+		case 1:
+			args = append(args, inp, "-o", outp)
+		case 2:
+			run.Stdin = in.Bytes()
+		}
+		run.Args = args
+		res := s.CLI(run)
+		if res.TimedOut {
+			c.Inconclusive("watchdog on a mixed run")
+			return
+		}
+		out := res.Stdout
+		if ch == 1 {
+			out, _ = os.ReadFile(outp)
+		}
+		c.Count("mixed_runs", 1)
+		c.Eval(fmt.Sprintf("mixed|%d|%s|%v", ch, f, lead))
+		rp := map[string]any{"kind": "mixed-run", "channel": []string{"file>stdout", "file>-o", "stdin>stdout"}[ch], "flags": f.Args(j, ""), "exit": res.Exit, "input_head": short(in.Bytes(), 1500)}
+		if res.Exit != 0 || sut.Crashed(res.Stderr) {
+			c.Violation("run-failed|mixed-run", fmt.Sprintf("a log mixing object lines with other JSON values and text: exit %d: %s", res.Exit, short(res.Stderr, 300)), rp)
+			return
+		}
+		ls := splitLines(out)
+		oi := 0
+		for i, l := range ls {
+			t, err := jt.ParseObject(l)
+			if err != nil {
+				c.Violation("output-not-an-object|mixed-run", fmt.Sprintf("output line %d of a mixed log is not one JSON object (%v): %s (%s, flags %s)", i, err, short(l, 160), rp["channel"], f), rp)
+				return
+			}
+			if oi >= len(objs) {
+				c.Violation("extra-line|mixed-run", fmt.Sprintf("output line %d has no object line of the input left to correspond to: %s", i, short(l, 160)), rp)
+				return
+			}
+			bad := ""
+			WalkTagged(objs[oi].Tree, t, false, func(o TObs) {
+				if o.Mismatch != "" && bad == "" {
+					bad = fmt.Sprintf("%s at %s", o.Mismatch, jt.PathStr(o.Path))
+				}
+			})
+			if bad != "" {
+				c.Violation("shape|mixed-run", fmt.Sprintf("output line %d does not have the shape of object line %d of the input (%s): %s", i, oi, bad, short(l, 160)), rp)
+				return
+			}
+			oi++
+			c.Count("mixed_run_lines_aligned", 1)
+		}
+		if oi != len(objs) {
+			c.Violation("missing-line|mixed-run", fmt.Sprintf("%d object lines in, %d lines out (%s, flags %s)", len(objs), oi, rp["channel"], f), rp)
 		}
 	})
 }
